@@ -86,12 +86,84 @@ def _callee_readonly(key: str) -> list[str]:
     return bad
 
 
+def probe_fix_off(tool_q: str) -> tuple[bool, str]:
+    """concrete stand-in when the switch variable is not bound the way the contract expects: repairable and
+    unrepairable invalid documents under every profile with the switch omitted and explicitly off must come back as
+    plain canonicalisation"""
+    import asyncio
+    import os
+    import tempfile
+
+    from octave_mcp.core.emitter import emit
+    from octave_mcp.core.parser import parse_with_warnings
+    from props import C10_b
+
+    C10_b._cwd()
+    bad = []
+    docs = [C10_b.CONTENTS[k] for k in ("valid", "casefold", "bad_enum", "missing_req", "unknown_field", "lenient_valid")]
+    if tool_q.startswith("ValidateTool"):
+        from octave_mcp.mcp.validate import ValidateTool
+
+        for d in docs:
+            plain = emit(parse_with_warnings(d)[0])
+            for profile in ("STRICT", "STANDARD", "LENIENT", "ULTRA"):
+                for kw in ({}, {"fix": False}):
+                    res = asyncio.run(ValidateTool().execute(content=d, schema="RPR", profile=profile, **kw))
+                    if res.get("canonical") != plain:
+                        bad.append(f"octave_validate(profile={profile}, {kw or 'fix omitted'}) returned {res.get('canonical')!r} for {d!r}; plain canonicalisation is {plain!r}")
+    else:
+        from octave_mcp.mcp.write import WriteTool
+
+        for d in docs:
+            plain = emit(parse_with_warnings(d)[0])
+            for kw in ({}, {"lenient": False}):
+                with tempfile.TemporaryDirectory(dir=os.getcwd()) as td:
+                    target = os.path.join(td, "d.oct.md")
+                    res = asyncio.run(WriteTool().execute(target_path=target, content=d, schema="RPR", **kw))
+                    if os.path.exists(target):
+                        got = open(target, encoding="utf-8").read()
+                        if got != plain:
+                            bad.append(f"octave_write({kw or 'lenient omitted'}, schema=RPR) wrote {got!r} for {d!r}; plain canonicalisation is {plain!r}")
+    return bool(bad), "; ".join(bad[:2]) or "switch off: every probe document came back as plain canonicalisation"
+
+
+def _switch_binding_problems(tool_mod: str, tool_q: str, names: set[str]) -> list[str]:
+    """the repair switch is whatever the caller passed: each switch variable is bound exactly once in the tool,
+    by `<name> = params.get("<name>", False)`"""
+    fn = extract.find_def(tool_mod, tool_q)
+    problems = []
+    for nm in sorted(names):
+        binds = []
+        for n in ast.walk(fn):
+            if isinstance(n, (ast.Assign, ast.AnnAssign, ast.AugAssign, ast.NamedExpr)):
+                tg = n.targets if isinstance(n, ast.Assign) else [n.target]
+                for t in tg:
+                    if any(isinstance(x, ast.Name) and x.id == nm for x in ast.walk(t)):
+                        binds.append(n)
+            elif isinstance(n, (ast.For, ast.With, ast.comprehension)):
+                t = getattr(n, "target", None)
+                if t is not None and any(isinstance(x, ast.Name) and x.id == nm for x in ast.walk(t)):
+                    binds.append(n)
+        ok = len(binds) == 1 and isinstance(binds[0], ast.Assign) and ast.unparse(binds[0]) == f"{nm} = params.get('{nm}', False)"
+        if not ok:
+            problems.append(f"{tool_q}: the switch `{nm}` is bound by {[f'L{b.lineno}: ' + ast.unparse(b)[:80] for b in binds]}, not once from the caller's argument")
+    return problems
+
+
 def ob_fix_off_readonly(tool_mod: str, tool_q: str, fix_guards: tuple[str, ...], region_guard: str | None = None):
     def fn(ctx: Ctx) -> Outcome:
+        from verif.common import shape_verdict
+
         try:
             calls = _calls_with_doc(tool_mod, tool_q)
+            switches = set()
+            for g in fix_guards:
+                switches |= {x.id for x in ast.walk(ast.parse(g, mode="eval")) if isinstance(x, ast.Name)} & {"fix", "lenient"}
+            sw_problems = _switch_binding_problems(tool_mod, tool_q, switches)
         except extract.ExtractionError as e:
             return Outcome.undecided("ast-shape", str(e))
+        if sw_problems:
+            return shape_verdict("frames+ast-shape", sw_problems, lambda: probe_fix_off(tool_q), 1, {"runner": "props.C09:probe_fix_off", "args": {"tool_q": tool_q}})
         if region_guard is not None:
             # only the validation region of the tool (statements under `if <region_guard>:`) is the subject
             calls = [c for c in calls if any(g == region_guard and pos for g, pos in c[1])]
